@@ -177,12 +177,37 @@ func checkClearsignWith(c ClearsignCase, kr openpgp.EntityList, armored bool, kr
 		}
 		signer = dec.Signer()
 	}
-	return judge("Decoder", paras, signer, err)
+	if e := judge("Decoder", paras, signer, err); e != nil {
+		return e
+	}
+	// a typed slice variable that was filled from UNSIGNED text before: after the signed document
+	// was decoded into it, every member says what the signed paragraph says - nothing of the earlier
+	// text sits in a member the signed paragraph does not mention
+	var ts []c11Typed
+	if err := control.Unmarshal(&ts, strings.NewReader("X-Unsigned-Note: evil 1\nPackage: evil\n\nX-Unsigned-Note: evil 2\nPackage: evil\n\nX-Unsigned-Note: evil 3\n\nX-Unsigned-Note: evil 4\n")); err != nil || len(ts) != 4 {
+		return errf("HARNESS: %v", err)
+	}
+	if dec3, err := control.NewDecoder(bytes.NewReader(c.Input), &kr); err == nil && armored {
+		if err := dec3.Decode(&ts); err == nil && dec3.Signer() != nil {
+			for i, e := range ts {
+				if e.Note != e.Values["X-Unsigned-Note"] || e.Pkg != e.Values["Package"] {
+					return errf("a typed slice that held unsigned text before, decoded into with a verified signer (%s): element %d has X-Unsigned-Note=%q Package=%q, the signed paragraph says %q / %q", fingerprint(dec3.Signer()), i, e.Note, e.Pkg, e.Values["X-Unsigned-Note"], e.Values["Package"])
+				}
+			}
+		}
+	}
+	return nil
+}
+
+type c11Typed struct {
+	control.Paragraph
+	Note string `control:"X-Unsigned-Note"`
+	Pkg  string `control:"Package"`
 }
 
 var specC11 = Register(&Spec[ClearsignCase]{
 	Prop: "C11", Name: "clearsign",
-	Rule:  "fault enumeration over clearsigned documents: C07 documents (1..3 paragraphs, LF; a third with a field of Latin-1 / non-UTF-8 bytes) signed with clearsign.Encode by an RSA entity from a per-process pool; keyring = signer only / signer among others / others only / empty for the unmutated document and for signed documents with an empty or blank body; the same keyring OBJECT changed in place (to other keys, to no keys) between two reads of the same bytes - the second read must fail; then with the signer in the keyring EVERY single-byte substitution (XOR 0x01, XOR 0x20, 'A'; at line ends also CR, LF, blank, tab, NUL, VT, FF, 0x85), EVERY single-byte deletion, EVERY single-byte insertion ('A', blank, newline), EVERY truncation length, splices of a foreign paragraph before the armor, inside the signed text, between text and signature, inside the signature armor and after it, replacement of the signature by that of another key or of another text, and removal of the signature block; a second complete clearsigned document appended (same signer, other signer, a replay of the first); the binary signature truncated at 8 lengths or with one byte flipped (every byte in the thorough tier, every 7th in quick) and armored afresh with a correct checksum, alone and under an altered text; a good signature followed by junk, a NUL byte, a newline, CR LF, a blank, two newlines or 0xff, a truncated or a damaged second signature (one byte flipped near its end; each of its first 12 bytes - packet header, version, type, public-key and hash algorithm, subpacket length - set to four other values), or with a well-formed user-ID or literal-data packet or an empty / one-byte / indeterminate-length signature packet in front of or behind it, inside a fresh armor; and for EVERY generated edit: if the armor then delivers the original signature plus further bytes, reading must fail; each character of the armor's CRC-24 line replaced by other printable characters, also with an armor-END look-alike or a whole second signed document behind the damaged block, or an armor-END look-alike line between the base64 data and a well-formed checksum line that is not the signature's (must fail: the signature is damaged, as gpgv says too). Oracle: reading (ParagraphReader.All and Decoder.Decode) ends in an error, or succeeds with Signer() == signing entity in the keyring and paragraphs == those of the signed text; success with a nil signer is allowed only when the input no longer starts with the armor header; the unmutated document with the signer in the keyring must be accepted. Non-trivial: every faulted case; distinct by (bytes, keyring).",
+	Rule:  "fault enumeration over clearsigned documents: C07 documents (1..3 paragraphs, LF; a third with a field of Latin-1 / non-UTF-8 bytes) signed with clearsign.Encode by an RSA entity from a per-process pool; keyring = signer only / signer among others / others only / empty for the unmutated document and for signed documents with an empty or blank body; the same keyring OBJECT changed in place (to other keys, to no keys) between two reads of the same bytes - the second read must fail; then with the signer in the keyring EVERY single-byte substitution (XOR 0x01, XOR 0x20, 'A'; at line ends also CR, LF, blank, tab, NUL, VT, FF, 0x85), EVERY single-byte deletion, EVERY single-byte insertion ('A', blank, newline), EVERY truncation length, splices of a foreign paragraph before the armor, inside the signed text, between text and signature, inside the signature armor and after it, replacement of the signature by that of another key or of another text, and removal of the signature block; a second complete clearsigned document appended (same signer, other signer, a replay of the first); the binary signature truncated at 8 lengths or with one byte flipped (every byte in the thorough tier, every 7th in quick) and armored afresh with a correct checksum, alone and under an altered text; a good signature followed by junk, a NUL byte, a newline, CR LF, a blank, two newlines or 0xff, a truncated or a damaged second signature (one byte flipped near its end; each of its first 12 bytes - packet header, version, type, public-key and hash algorithm, subpacket length - set to four other values), or with a well-formed user-ID or literal-data packet or an empty / one-byte / indeterminate-length signature packet in front of or behind it, inside a fresh armor; and for EVERY generated edit: if the armor then delivers the original signature plus further bytes, reading must fail; each character of the armor's CRC-24 line replaced by other printable characters, also with an armor-END look-alike or a whole second signed document behind the damaged block, or an armor-END look-alike line between the base64 data and a well-formed checksum line that is not the signature's (must fail: the signature is damaged, as gpgv says too). Oracle: reading (ParagraphReader.All and Decoder.Decode; also Decode into a typed slice variable that held four elements of unsigned text before - no member may keep any of it) ends in an error, or succeeds with Signer() == signing entity in the keyring and paragraphs == those of the signed text; success with a nil signer is allowed only when the input no longer starts with the armor header; the unmutated document with the signer in the keyring must be accepted. Non-trivial: every faulted case; distinct by (bytes, keyring).",
 	Check: checkClearsign,
 })
 
